@@ -315,17 +315,56 @@ def serializeTriples (n : Nat) (ts : List Triple) (srcFails : Bool) (cap : Optio
 
 /-! ## reference reader -/
 
-/-- inverse of `escape` on the five predefined entities; any other `&` is outside the vocabulary
-(the writer never produces one) -/
-def unescape : Str → Option Str
-  | [] => some []
-  | '&' :: 'l' :: 't' :: ';' :: r => (unescape r).map ('<' :: ·)
-  | '&' :: 'g' :: 't' :: ';' :: r => (unescape r).map ('>' :: ·)
-  | '&' :: 'a' :: 'm' :: 'p' :: ';' :: r => (unescape r).map ('&' :: ·)
-  | '&' :: 'a' :: 'p' :: 'o' :: 's' :: ';' :: r => (unescape r).map ('\'' :: ·)
-  | '&' :: 'q' :: 'u' :: 'o' :: 't' :: ';' :: r => (unescape r).map ('"' :: ·)
-  | '&' :: _ => none
-  | c :: r => (unescape r).map (c :: ·)
+/-- value of a digit in the given radix (10 or 16), as `u32::from_str_radix` reads it -/
+def digitVal (radix : Nat) (c : Char) : Option Nat :=
+  let n := c.toNat
+  if 48 ≤ n && n ≤ 57 then some (n - 48)
+  else if radix == 16 && 97 ≤ n && n ≤ 102 then some (n - 87)
+  else if radix == 16 && 65 ≤ n && n ≤ 70 then some (n - 55)
+  else none
+
+/-- `u32::from_str_radix` behind quick-xml's sign guard: at least one digit, digits only (the
+`u32` overflow is subsumed by the code point check of `charRef`) -/
+def parseRadix (radix : Nat) : Str → Option Nat
+  | [] => none
+  | s => s.foldl (fun acc c => match acc, digitVal radix c with
+      | some a, some d => some (a * radix + d)
+      | _, _ => none) (some 0)
+
+/-- quick-xml 0.36 `parse_number` on what stands between `&#` and `;`: `x` + hex digits or decimal
+digits; code 0 and non-scalar values (surrogates, > 0x10FFFF) are errors; NO check against the XML
+`Char` production (`&#1;` is accepted) -/
+def charRef (num : Str) : Option Char :=
+  let code := match num with
+    | 'x' :: h => parseRadix 16 h
+    | _ => parseRadix 10 num
+  match code with
+  | none => none
+  | some n => if n = 0 then none else if n < 0xD800 || (0xE000 ≤ n && n < 0x110000) then some (Char.ofNat n) else none
+
+/-- quick-xml's `unescape_with` as rio_xml calls it (no DTD entities): the five predefined
+entities and numeric character references; any other `&…` is an error.  `pending = some acc`:
+inside `&#…`, `acc` = the characters read so far (reversed), up to the next `;`. -/
+def unescapeFrom : Option Str → Str → Option Str
+  | some _, [] => none
+  | some acc, ';' :: r =>
+    match charRef acc.reverse with
+    | none => none
+    | some c => (unescapeFrom none r).map (c :: ·)
+  | some acc, d :: r => unescapeFrom (some (d :: acc)) r
+  | none, [] => some []
+  | none, '&' :: 'l' :: 't' :: ';' :: r => (unescapeFrom none r).map ('<' :: ·)
+  | none, '&' :: 'g' :: 't' :: ';' :: r => (unescapeFrom none r).map ('>' :: ·)
+  | none, '&' :: 'a' :: 'm' :: 'p' :: ';' :: r => (unescapeFrom none r).map ('&' :: ·)
+  | none, '&' :: 'a' :: 'p' :: 'o' :: 's' :: ';' :: r => (unescapeFrom none r).map ('\'' :: ·)
+  | none, '&' :: 'q' :: 'u' :: 'o' :: 't' :: ';' :: r => (unescapeFrom none r).map ('"' :: ·)
+  | none, '&' :: '#' :: r => unescapeFrom (some []) r
+  | none, '&' :: _ => none
+  | none, c :: r => (unescapeFrom none r).map (c :: ·)
+
+/-- inverse of `escape` (the writer produces only the five predefined entities), and what the
+reader additionally accepts: numeric character references -/
+def unescape (s : Str) : Option Str := unescapeFrom none s
 
 /-- XML 1.0 §2.11: CRLF and lone CR become LF (done by a conforming processor before parsing) -/
 def lineEnd : Str → Str
